@@ -17,6 +17,11 @@ def isPanic (impl : String) : Bool := impl.startsWith "panic" || impl == "hang" 
 /-- independent statement: the addressed columns, in the addressed order -/
 def colsOf (rows : Rows) (sites : List Nat) : Rows := rows.map fun r => (r.1, sites.filterMap fun j => r.2[j]?)
 
+/-- one-line-per-sequence FASTA -/
+def parseFasta : List String → Rows
+  | h :: q :: t => if h.startsWith ">" then ((h.drop 1).toString, bytesOfString q) :: parseFasta t else parseFasta (q :: t)
+  | _ => []
+
 def handle : Handler := fun op args impl =>
   match op, args with
   | "subalign", [rows, st, ln] => do
@@ -166,6 +171,40 @@ def handle : Handler := fun op args impl =>
         verdictOf (rebuilt == rows) "split-reinterleave"
       | _ => "na"
     some ⟨m, v⟩
+  | "cli_subseq", stdin :: "subseq" :: "--ref-seq" :: name :: "-s" :: st :: "-l" :: ln :: rest => do
+    -- glue of cmd/subseq.go on the built binary: FASTA on stdin (`|` = newline), one line per sequence
+    let st ← parseInt? st
+    let ln ← parseInt? ln
+    let rev := rest == ["-r"]
+    let rows := parseFasta (stdin.splitOn "|")
+    let L := lenOf rows
+    let fasta (r : Rows) : String := String.join (r.map fun x => ">" ++ x.1 ++ "|" ++ stringOfBytes x.2 ++ "|")
+    let m := match refCoordinates rows name st ln with
+      | .ok (a, l, false) =>
+        if rev then
+          match inverseCoordinates L a l with
+          | .ok (ss, ls) =>
+            let pieces := (ss.zip ls).map fun w => subAlign rows L w.1 w.2
+            let cat := rows.zipIdx.map fun (r, i) => (r.1, pieces.flatMap fun p => match p with
+              | .ok pr => ((pr.getD i ("", [])).2) | _ => [])
+            "rc=0 out=" ++ fasta cat
+          | _ => "rc=1 out="
+        else match subAlign rows L a l with
+          | .ok r => "rc=0 out=" ++ fasta r
+          | _ => "rc=1 out="
+      | _ => "rc=1 out="
+    -- predicate, independent: positions of the reference residues
+    let exp := match rows.find? (fun r => r.1 == name) with
+      | none => "rc=1 out="
+      | some r =>
+        let pos := (List.range r.2.length).filter fun j => r.2.getD j 0 != GAP
+        if st < 0 || ln ≤ 0 || st + ln > pos.length then "rc=1 out="
+        else
+          let a := pos.getD st.toNat 0
+          let b := pos.getD (st + ln - 1).toNat 0
+          let keep := (List.range r.2.length).filter fun j => if rev then j < a || j > b else a ≤ j && j ≤ b
+          "rc=0 out=" ++ fasta (colsOf rows keep)
+    some ⟨m, verdictOf (impl == exp) "subseq-refseq-cli"⟩
   | _, _ => none
 
 end Gv.Oracle.SitesOps
